@@ -50,6 +50,9 @@ static void fmt_vals(DataSubset *s)
       }
    }
 
+/* used by ops_dump.c (C13) */
+void bvp_fmt_vals(DataSubset *s) { fmt_vals(s); }
+
 static int ss_vals(int argc, char **argv)
    {
    DataSubset *s;
